@@ -528,7 +528,21 @@ class HyReader(Reader):
                 components.append(self.fill_pos(String(s), start))
             if closed:
                 break
-            components.extend(self.read_fcomponent(prefix, fstring_mode))
+            new = self.read_fcomponent(prefix, fstring_mode)
+            if (
+                components
+                and isinstance(components[-1], String)
+                and isinstance(new[0], String)
+            ):
+                # The text produced by `=` continues the literal chunk
+                # before the field, so they make one component, as if
+                # the text had been written out.
+                first = components.pop()
+                merged = String(first + new.pop(0))
+                merged.start_line, merged.start_column = first.start_line, first.start_column
+                merged.end_line, merged.end_column = first.end_line, first.end_column
+                components.append(merged)
+            components.extend(new)
         return components
 
     def read_fcomponent(self, prefix, fstring_mode):
